@@ -2,6 +2,27 @@
 //! usage: replay <entry> <input>      (input is taken literally; \n, \r, \\ and \u{..} escapes are decoded)
 use std::panic;
 use swift_mt_message::fields::swift_utils as su;
+use swift_mt_message::fields::*;
+use swift_mt_message::traits::SwiftField;
+use swift_mt_message::{ApplicationHeader, BasicHeader, SwiftParser, Trailer, UserHeader};
+
+fn field(tag: &str, input: &str) -> String {
+    macro_rules! f { ($t:ty) => {{ match <$t>::parse(input) { Ok(v) => format!("OK {:?} => {:?}", v, v.to_swift_string()), Err(e) => format!("ERR {:?}", e) } }}; }
+    match tag {
+        "11R" => f!(Field11R), "11S" => f!(Field11S), "12" => f!(Field12), "13C" => f!(Field13C), "13D" => f!(Field13D),
+        "19" => f!(Field19), "20" => f!(Field20), "21" => f!(Field21NoOption), "23B" => f!(Field23B), "23E" => f!(Field23E),
+        "26T" => f!(Field26T), "28" => f!(Field28), "28C" => f!(Field28C), "28D" => f!(Field28D), "30" => f!(Field30),
+        "32A" => f!(Field32A), "32B" => f!(Field32B), "33B" => f!(Field33B), "34F" => f!(Field34F), "36" => f!(Field36), "37H" => f!(Field37H),
+        "50K" => f!(Field50K), "50A" => f!(Field50A), "50F" => f!(Field50F), "51A" => f!(Field51A),
+        "52A" => f!(Field52A), "52D" => f!(Field52D), "53A" => f!(Field53A), "53B" => f!(Field53B), "53D" => f!(Field53D),
+        "56A" => f!(Field56A), "57A" => f!(Field57A), "57D" => f!(Field57D), "58A" => f!(Field58A), "59" => f!(Field59NoOption), "59A" => f!(Field59A), "59F" => f!(Field59F),
+        "60F" => f!(Field60F), "60M" => f!(Field60M), "61" => f!(Field61), "62F" => f!(Field62F), "62M" => f!(Field62M), "64" => f!(Field64), "65" => f!(Field65),
+        "70" => f!(Field70), "71A" => f!(Field71A), "71F" => f!(Field71F), "71G" => f!(Field71G), "72" => f!(Field72), "75" => f!(Field75), "76" => f!(Field76),
+        "77A" => f!(Field77A), "77B" => f!(Field77B), "77T" => f!(Field77T), "79" => f!(Field79), "86" => f!(Field86), "90C" => f!(Field90C), "90D" => f!(Field90D),
+        _ => format!("UNKNOWN-FIELD {}", tag),
+    }
+}
+
 
 fn unescape(s: &str) -> String {
     let mut out = String::new();
@@ -39,6 +60,16 @@ fn run(entry: &str, input: &str) -> String {
         "parse_currency" => show(su::parse_currency(input)),
         "parse_amount" => show(su::parse_amount(input)),
         "validate_iban" => show(su::validate_iban(input)),
+        "block1" => show(BasicHeader::parse(input).map(|h| (format!("{:?}", h), h.to_string()))),
+        "block2" => show(ApplicationHeader::parse(input).map(|h| (format!("{:?}", h), h.to_string()))),
+        "block3" => show(UserHeader::parse(input).map(|h| (format!("{:?}", h), h.to_string()))),
+        "block5" => show(Trailer::parse(input).map(|h| (format!("{:?}", h), h.to_string()))),
+        "parse_auto" => match SwiftParser::parse_auto(input) {
+            Ok(m) => format!("OK type={} valid={:?} mt={:?}", m.message_type(), m.validate().is_valid, match &m { _ => serde_json::to_string(&m).unwrap_or_default() }),
+            Err(e) => format!("ERR {:?}", e),
+        },
+        e if e.starts_with("extract_block:") => show(SwiftParser::extract_block(input, e[14..].parse().unwrap_or(0))),
+        e if e.starts_with("field:") => field(&e[6..], input),
         _ => format!("UNKNOWN-ENTRY {}", entry),
     }
 }
